@@ -457,6 +457,8 @@ fn programs(family: &str) -> Vec<(String, Outcome)> {
 
 fn search_programs(family: &str) -> Option<(String, String)> {
     for (src, want) in programs(family) {
+        // (the driver reads the last TRY line when this process dies: stack overflow, abort)
+        eprintln!("TRY {} {}", family, esc(&src));
         let got = compile(&src);
         if got != want {
             return Some((src, format!("expected {:?}, compiler: {:?}", want, got)));
